@@ -1,18 +1,27 @@
-"""C10: regenerates coq/gen/SsaKey.v from the text of
-program_structure/src/control_flow_graph/ssa_impl.rs.
+"""C10 LINT (outside the proof obligations): reads `Environment::version_key`
+from the text of program_structure/src/control_flow_graph/ssa_impl.rs.
 
-`Environment::version_key` is private, so the Gallina `ssa_key` of
-Model.UniqueVars cannot be run against it. Instead its definition is READ from
-the source on every run: the two match arms of the function become two lists
-of pieces (`KName`, `KSuffix`, `KLit bytes`), and every access to the version
-maps in the file is listed with the expression used as key. Model.UniqueVars
-renders `ssa_key` from the generated pieces; props/C10.v proves injectivity for
-exactly the generated format (C10_ssa_key_format_separates is the decision,
-C10_ssa_keys_injective the theorem) and that every map access goes through
-`version_key` (C10_ssa_maps_keyed_by_version_key). Anything in the function
-this reader does not understand becomes a `KOther "text"` piece, for which
-nothing can be proved: an edit of the Rust function either changes the pieces
-(and the obligations are re-checked against the new format) or breaks them.
+The function is private, so the key of the SSA version maps cannot be run. What
+the property needs is observed behaviourally (lib/props/C10.py `ssa_failures`:
+two (name, suffix) pairs that share a key share a version counter), and the
+theorem C10_ssa_keys_injective is about the transcription
+Model.UniqueVars.ssa_key. This reader adds a textual cross-check and never
+decides an obligation:
+
+* it turns the two cases of the function (a `match name.suffix()` or an
+  `if let Some(..) = name.suffix()`; arms with or without braces; `format!` with
+  `{}`, positional `{0}` or inline `{ident}` holes; `.to_string()` & co.) into
+  piece lists (name / suffix / literal bytes);
+* verdict `separating`: the extracted decision Model.UniqueVars.key_format_ok
+  accepts the format (the class C10_separating_key_formats_injective is about);
+  `colliding`: rendering the format over a pool of identifiers and suffixes
+  gives two different (name, suffix) pairs with one key (the pair is reported;
+  C10.py turns it into a VIOLATION without input only if no generated program
+  exposed the shared counter); `outside the proved class`: neither; `not
+  understood`: the reader could not read the function (a warning, counted in
+  the evidence, never a violation: a harmless rewrite must not alarm);
+* it counts the accesses to the version maps and how many visibly go through
+  `version_key` (information only).
 """
 import os
 import re
@@ -135,24 +144,54 @@ def unescape(lit):
     return "".join(out).encode()
 
 
-def name_piece(e, suffix_var):
+
+def display_is_bare_name(repo):
+    """`impl fmt::Display for VariableName` writes the bare name (so `{name}` in a
+    format string of version_key is the name)?"""
+    try:
+        src = strip_comments(open(os.path.join(repo, "program_structure/src/intermediate_representation/ir.rs"),
+                                  encoding="utf-8", errors="replace").read())
+    except OSError:
+        return False
+    m = re.search(r"impl\s+(?:std::)?fmt::Display\s+for\s+VariableName\s*\{", src)
+    if not m:
+        return False
+    body, _ = braced(src, m.end() - 1)
+    return body is not None and re.search(r'write!\s*\(\s*f\s*,\s*"\{\}"\s*,\s*self\.name\s*\)', body) is not None and body.count("write!") == 1
+
+
+def name_piece(e, suffix_var, param, bare):
     e = e.replace(" ", "")
-    if e in ("name.name()", "&name.name()", "name.name", "&name.name"):
+    for pre in ("&", "*"):
+        if e.startswith(pre):
+            e = e[1:]
+    for tail in (".as_str()", ".clone()", ".to_string()", ".to_owned()"):
+        if e.endswith(tail):
+            e = e[:-len(tail)]
+    if e in (param + ".name()", param + ".name"):
         return ("name",)
-    if suffix_var and e in (suffix_var, "&" + suffix_var, "*" + suffix_var):
+    if e == param and bare:
+        return ("name",)
+    if suffix_var and e == suffix_var:
         return ("suffix",)
     return ("other", e)
 
 
-def pieces_of(expr, suffix_var):
+def pieces_of(expr, suffix_var, param, bare):
     """The string an arm evaluates to, as pieces; ('other', text) for what is not understood."""
-    e = expr.strip().rstrip(",").strip()
+    e = expr.strip().rstrip(",;").strip()
+    while e.startswith("{") and braced(e, 0)[1] == len(e):        # braces round an arm body
+        e = e[1:-1].strip().rstrip(";").strip()
+    if e.startswith("return "):
+        e = e[7:].strip()
     compact = e.replace(" ", "")
-    for tail in (".to_string()", ".clone()", ".to_owned()", ".into()"):
-        if compact.endswith(tail) and not compact.startswith("format!"):
-            p = name_piece(compact[:-len(tail)], suffix_var)
-            return [p]
-    m = re.match(r'^format!\s*\(\s*"((?:[^"\\]|\\.)*)"\s*(.*)\)$', e, re.S)
+    if not compact.startswith("format!"):
+        for tail in (".to_string()", ".clone()", ".to_owned()", ".into()"):
+            if compact.endswith(tail):
+                return [name_piece(compact[:-len(tail)], suffix_var, param, bare)]
+        if compact.startswith("String::from(") and compact.endswith(")"):
+            return [name_piece(compact[13:-1], suffix_var, param, bare)]
+    m = re.match(r'^format!\s*[\(\[{]\s*"((?:[^"\\]|\\.)*)"\s*(.*)[\)\]}]$', e, re.S)
     if not m:
         return [("other", norm(e))]
     fmt = unescape(m.group(1))
@@ -160,6 +199,14 @@ def pieces_of(expr, suffix_var):
         return [("other", norm(e))]
     fmt = fmt.decode()
     args = split_args(m.group(2).lstrip(",")) if m.group(2).strip() else []
+    named = {}
+    pos = []
+    for a in args:
+        mm = re.match(r"^(\w+)\s*=\s*(.*)$", a, re.S)
+        if mm and not a.replace(" ", "").startswith(mm.group(1) + "=="):
+            named[mm.group(1)] = mm.group(2)
+        else:
+            pos.append(a)
     out, lit, i, k = [], [], 0, 0
 
     def flush():
@@ -177,13 +224,20 @@ def pieces_of(expr, suffix_var):
                 return [("other", norm(e))]
             spec = fmt[i + 1:j]
             flush()
+            if ":" in spec:
+                return [("other", "{" + spec + "}")]        # {:?} and friends: another printed form
             if spec == "":
-                if k >= len(args):
+                if k >= len(pos):
                     return [("other", norm(e))]
-                out.append(name_piece(args[k], suffix_var))
+                out.append(name_piece(pos[k], suffix_var, param, bare))
                 k += 1
-            elif re.match(r"^\w+$", spec) and not spec.isdigit():
-                out.append(("suffix",) if spec == suffix_var else ("other", "{" + spec + "}"))
+            elif spec.isdigit():
+                if int(spec) >= len(pos):
+                    return [("other", norm(e))]
+                out.append(name_piece(pos[int(spec)], suffix_var, param, bare))
+            elif re.match(r"^\w+$", spec):
+                out.append(name_piece(named[spec], suffix_var, param, bare) if spec in named
+                           else name_piece(spec, suffix_var, param, bare))
             else:
                 out.append(("other", "{" + spec + "}"))
             i = j + 1
@@ -193,45 +247,92 @@ def pieces_of(expr, suffix_var):
             lit.append(c)
             i += 1
     flush()
-    if k != len(args):
-        return [("other", norm(e))]
     return out
 
 
-def read_version_key(src):
-    """-> (pieces of the Some arm, pieces of the None arm, note)"""
+def split_arms(text):
+    """Match arms `pattern => body`: a body in braces ends at its closing brace
+    (a comma may follow), any other at the next top-level comma."""
+    arms, i, n = [], 0, len(text)
+    while i < n:
+        j = text.find("=>", i)
+        if j < 0:
+            if text[i:].strip().strip(","):
+                arms.append(text[i:].strip())
+            break
+        k = j + 2
+        while k < n and text[k] == " ":
+            k += 1
+        if k < n and text[k] == "{":
+            body, e = braced(text, k)
+            if body is None:
+                arms.append(text[i:].strip())
+                break
+            arms.append(text[i:e].strip())
+            i = e
+            while i < n and text[i] in " ,":
+                i += 1
+        else:
+            rest = split_args(text[k:])
+            first = rest[0] if rest else ""
+            e = text.find(first, k) + len(first) if first else k
+            arms.append(text[i:e].strip())
+            i = e
+            while i < n and text[i] in " ,":
+                i += 1
+    return arms
+
+
+def read_version_key(src, bare):
+    """-> (pieces of the Some case, pieces of the None case, note)"""
     fns = [f for f in functions(src) if f[0] == "version_key"]
     if len(fns) != 1:
-        return [("other", "version_key: %d definitions" % len(fns))], [("other", "version_key: %d definitions" % len(fns))], "not found"
+        return None, None, "version_key: %d definitions" % len(fns)
     _, sig, body = fns[0]
-    if not re.match(r"^fn version_key\s*\(\s*name\s*:\s*&VariableName\s*\)\s*->\s*String$", sig):
-        return [("other", sig)], [("other", sig)], "signature"
-    b = norm(body)
-    m = re.match(r"^match name\.suffix\(\) \{(.*)\}$", b)
+    m = re.match(r"^(?:pub(?:\([a-z]+\))?\s+)?fn version_key\s*\(\s*(\w+)\s*:\s*&\s*VariableName\s*\)\s*->\s*String$", sig)
     if not m:
-        return [("other", b)], [("other", b)], "not a match on name.suffix()"
-    arms = split_args(m.group(1))
-    some = none = None
-    for a in arms:
-        ma = re.match(r"^Some\s*\(\s*(?:ref\s+)?(\w+)\s*\)\s*=>\s*(.*)$", a, re.S)
-        if ma and some is None:
-            some = pieces_of(ma.group(2), ma.group(1))
-            continue
-        mb = re.match(r"^None\s*=>\s*(.*)$", a, re.S)
-        if mb and none is None:
-            none = pieces_of(mb.group(1), None)
-            continue
-        return [("other", b)], [("other", b)], "unexpected arm: " + a
-    if some is None or none is None:
-        return [("other", b)], [("other", b)], "an arm is missing"
-    return some, none, "ok"
+        return None, None, "signature: " + sig
+    param = m.group(1)
+    b = norm(body).rstrip(";").strip()
+    if b.startswith("return "):
+        b = b[7:].strip()
+    subject = r"%s\s*\.\s*suffix\s*\(\s*\)(?:\s*\.\s*as_ref\s*\(\s*\))?" % re.escape(param)
+    m = re.match(r"^match\s+&?\s*%s\s*\{(.*)\}$" % subject, b)
+    if m:
+        some = none = None
+        for a in split_arms(m.group(1)):
+            ma = re.match(r"^&?\s*Some\s*\(\s*(?:ref\s+)?(\w+)\s*\)\s*=>\s*(.*)$", a, re.S)
+            if ma and some is None:
+                some = pieces_of(ma.group(2), ma.group(1), param, bare)
+                continue
+            mb = re.match(r"^(?:&?\s*None|_)\s*=>\s*(.*)$", a, re.S)
+            if mb and none is None:
+                none = pieces_of(mb.group(1), None, param, bare)
+                continue
+            return None, None, "unexpected arm: " + a
+        if some is None or none is None:
+            return None, None, "an arm is missing"
+        return some, none, "ok"
+    m = re.match(r"^if let\s+&?\s*Some\s*\(\s*(?:ref\s+)?(\w+)\s*\)\s*=\s*&?\s*%s\s*(\{.*)$" % subject, b)
+    if m:
+        rest = m.group(2)
+        then, j = braced(rest, 0)
+        tail = rest[j:].strip()
+        if then is None or not tail.startswith("else"):
+            return None, None, "if let without else"
+        tail = tail[4:].strip()
+        els, j2 = braced(tail, 0) if tail.startswith("{") else (None, 0)
+        if els is None or tail[j2:].strip():
+            return None, None, "if let: else branch"
+        return pieces_of(then, m.group(1), param, bare), pieces_of(els, None, param, bare), "ok"
+    return None, None, "neither a match nor an if let on %s.suffix()" % param
 
 
 def read_accesses(src):
     """Every symbol-keyed access (`*variable*` methods of environment.rs) to one of the version maps, file-wide:
-    (function, map, method, key expression, keyed) -- keyed iff the key is the
-    local `name` bound by `let name = Self::version_key(name);` earlier in the
-    same function."""
+    (function, map, method, key expression, keyed) -- keyed: the key expression is
+    `&Self::version_key(..)` or a local bound by `let <id> = Self::version_key(..);`
+    (information only)."""
     out = []
     for fname, _, body in functions(src):
         for m in re.finditer(r"\b(?:self\s*\.\s*)?(%s)\s*\.\s*(\w*variable\w*)\s*\(" % "|".join(MAPS), body):
@@ -243,59 +344,80 @@ def read_accesses(src):
                 depth -= body[j] in ")]}"
                 j += 1
             args = split_args(body[m.end():j - 1])
-            key = norm(args[0]) if args else ""
+            key = norm(args[0]).replace(" ", "") if args else ""
             before = norm(body[:m.start()])
-            binds = re.findall(r"let (?:mut )?name\b[^;]*;", before)
-            keyed = key.replace(" ", "") == "&name" and bool(binds) and \
-                binds[-1].replace(" ", "") == "letname=Self::version_key(name);"
+            keyed = bool(re.match(r"^&(?:Self|Environment)::version_key\(", key))
+            mk = re.match(r"^&(\w+)$", key)
+            if mk:
+                binds = re.findall(r"let (?:mut )?%s\b[^;]*;" % re.escape(mk.group(1)), before)
+                keyed = bool(binds) and re.match(r"^let(?:mut)?%s(?::String)?=(?:Self|Environment)::version_key\(" % re.escape(mk.group(1)),
+                                                 binds[-1].replace(" ", "")) is not None
             out.append((fname, m.group(1), m.group(2), key, keyed))
-    # nested fns are listed under both the outer and the inner name: keep one entry per text position is
-    # not needed here (ssa_impl.rs has no nested fns); duplicates would only repeat a row
     return out
 
 
 def show_piece(p):
     if p[0] == "name":
-        return "KName"
+        return "n"
     if p[0] == "suffix":
-        return "KSuffix"
+        return "s"
     if p[0] == "lit":
-        return "KLit [%s]" % "; ".join("%d%%N" % b for b in p[1])
-    return "KOther " + cstr(p[1][:200])
+        return "l:" + p[1].hex()
+    return "?" + p[1][:80]
 
 
-def fragment(repo):
+def render(ps, n, s):
+    return b"".join(n if p[0] == "name" else s if p[0] == "suffix" else p[1] for p in ps)
+
+
+def collision(some, none):
+    """Two different (name, suffix) pairs with the same key, searched over identifiers
+    made of x _ $ 0 1 (up to 4 bytes, starting like an identifier) and suffixes 0..11."""
+    import itertools
+    names = []
+    for l in range(1, 5):
+        for t in itertools.product(b"x_$01", repeat=l):
+            w = bytes(t)
+            if re.match(rb"^[$_]*[a-zA-Z][a-zA-Z$_0-9]*$", w):
+                names.append(w)
+    seen = {}
+    for n in names:
+        for s in [None] + [str(i).encode() for i in range(12)]:
+            k = render(none, n, b"") if s is None else render(some, n, s)
+            if k in seen and seen[k] != (n, s):
+                a, b = seen[k], (n, s)
+                return [[a[0].decode(), a[1].decode() if a[1] is not None else None],
+                        [b[0].decode(), b[1].decode() if b[1] is not None else None], k.decode(errors="replace")]
+            seen[k] = (n, s)
+    return None
+
+
+def lint(repo, decide):
+    """-> dict for the evidence. `decide(line)`: the extracted key_format_ok (model driver, mode keyfmt)."""
     path = os.path.join(repo, SRC)
     try:
         src = strip_comments(open(path, encoding="utf-8", errors="replace").read())
     except OSError as e:
-        src = ""
-        note0 = "unreadable: %r" % (e,)
-    else:
-        note0 = None
-    some, none, note = read_version_key(src)
+        return {"verdict": "not understood", "reader": "unreadable: %r" % (e,)}
+    bare = display_is_bare_name(repo)
+    some, none, note = read_version_key(src, bare)
     acc = read_accesses(src)
-    t = ("(* GENERATED by lib/props/c10key.py from the text of %s\n"
-         "   (fn Environment::version_key and every access to the version maps).\n"
-         "   Do not edit: rewritten on every run of ./check C10.  Reader: %s *)\n" % (SRC, note0 or note))
-    t += "From Coq Require Import String List NArith.\nImport ListNotations.\nLocal Open Scope string_scope.\n\n"
-    t += ("(* a piece of the key string: the name, the suffix, literal bytes of the format\n"
-          "   string, or source text the reader does not understand *)\n"
-          "Inductive kpiece := KName | KSuffix | KLit (bytes : list N) | KOther (text : string).\n\n")
-    t += "(* match name.suffix() { Some(suffix) => <this>, .. } *)\n"
-    t += "Definition version_key_some : list kpiece := [%s].\n" % "; ".join(show_piece(p) for p in some)
-    t += "(* match name.suffix() { .., None => <this> } *)\n"
-    t += "Definition version_key_none : list kpiece := [%s].\n\n" % "; ".join(show_piece(p) for p in none)
-    t += ("(* every get_variable / add_variable on scoped_versions / global_versions in the file:\n"
-          "   (function, (map.method(key expression), keyed)) -- keyed: the key is the local `name`\n"
-          "   bound by `let name = Self::version_key(name);` *)\n")
-    rows = ["(%s, (%s, %s))" % (cstr(f), cstr("%s.%s(%s)" % (mp, meth, key)), "true" if k else "false") for f, mp, meth, key, k in acc]
-    t += "Definition version_map_accesses : list (string * (string * bool)) :=\n  [%s].\n" % ";\n   ".join(rows)
-    return t, {"some": [show_piece(p) for p in some], "none": [show_piece(p) for p in none],
-               "accesses": len(acc), "accesses_keyed": sum(1 for a in acc if a[4]), "reader": note0 or note}
-
-
-def gen(repo=None):
-    t, info = fragment(repo or common.REPO)
-    common.write_if_changed(os.path.join(common.COQ, "gen", "SsaKey.v"), t)
+    info = {"reader": note, "accesses": len(acc), "accesses_visibly_keyed": sum(1 for a in acc if a[4]),
+            "role": "lint outside the proof obligations; `not understood` / `outside the proved class` are warnings"}
+    if some is None or any(p[0] == "other" for p in some + none):
+        info["verdict"] = "not understood"
+        if some is not None:
+            info["some"], info["none"] = [show_piece(p) for p in some], [show_piece(p) for p in none]
+        return info
+    info["some"], info["none"] = [show_piece(p) for p in some], [show_piece(p) for p in none]
+    ok = decide(" ".join(info["some"]) + " ; " + " ".join(info["none"]))
+    col = collision(some, none)
+    if col is not None:
+        info["verdict"] = "colliding"
+        info["colliding_pairs"] = col
+    elif ok == "1":
+        info["verdict"] = "separating"
+    else:
+        info["verdict"] = "outside the proved class"
+    info["key_format_ok"] = ok
     return info
